@@ -1051,7 +1051,7 @@ func (f *Frame) indexAddr(i *ssa.IndexAddr, st *PState) {
 			// a Store through this address would be lost
 			for _, ref := range *i.Referrers() {
 				if s, ok := ref.(*ssa.Store); ok && s.Addr == i {
-					ex.vc.Unsupported(fmt.Sprintf("%s: in-place write into a []byte is not modelled", f.fn.String()))
+					f.fail("in-place write into a []byte is outside the modelled subset (byte slices are immutable values)")
 				}
 			}
 			return
